@@ -34,14 +34,15 @@ end Cia
 
 /-- **C05 (title key).**  If AES decryption inverts AES encryption, CBC-decrypting the ticket's encrypted title
     key under the common key with IV = title id ++ 0^8 recovers the title key. -/
-theorem titlekey_recovered (E D : Bytes → Bytes → Bytes) (hED : ∀ k b, D k (E k b) = b) (ck iv tk : Bytes)
-    (htk : tk.length = 16) (hiv : iv.length = 16) (hE : ∀ k b, (E k b).length = 16) :
+theorem titlekey_recovered (E D : Bytes → Bytes → Bytes) (hED : ∀ k b, b.length = 16 → D k (E k b) = b) (ck iv tk : Bytes)
+    (htk : tk.length = 16) (hiv : iv.length = 16) (hE : ∀ k b, b.length = 16 → (E k b).length = 16) :
     Engine.cbcDecBlocks D ck iv (E ck (xorBytes tk iv)) = tk := by
-  have hl : (E ck (xorBytes tk iv)).length / 16 = 1 := by rw [hE]
+  have hx : (xorBytes tk iv).length = 16 := by simp [xorBytes, htk, hiv]
+  have hl : (E ck (xorBytes tk iv)).length / 16 = 1 := by rw [hE _ _ hx]
   unfold Engine.cbcDecBlocks
   rw [hl]
   simp only [List.range_one, List.flatMap_cons, List.flatMap_nil, List.append_nil, Nat.mul_zero, if_true]
-  rw [slice_all _ _ (by rw [hE]; exact Nat.le_refl _), hED]
+  rw [slice_all _ _ (by rw [hE _ _ hx]; exact Nat.le_refl _), hED _ _ hx]
   -- (tk xor iv) xor iv = tk
   apply List.ext_getElem?; intro i
   simp only [xorBytes, List.getElem?_zipWith]
@@ -51,6 +52,10 @@ theorem titlekey_recovered (E D : Bytes → Bytes → Bytes) (hED : ∀ k b, D k
     simp [h1, h2, UInt8.xor_assoc]
   · rw [List.getElem?_eq_none (by omega), List.getElem?_eq_none (by omega)]
 
+/-- the hypotheses about the block cipher are satisfiable (they speak about 16-byte blocks only: a version quantifying over
+    inputs of every length would ask for an injection of all byte strings into 16-byte strings) -/
+example : ∃ E D : Bytes → Bytes → Bytes, (∀ k b, b.length = 16 → D k (E k b) = b) ∧ (∀ k b, b.length = 16 → (E k b).length = 16) :=
+  ⟨fun _ b => b.reverse, fun _ b => b.reverse, fun _ b _ => by simp, fun _ b hb => by simpa using hb⟩
 
 /-! ### the title key does not depend on what the engine loaded before -/
 section History
